@@ -434,13 +434,15 @@ def kind_of(e) -> str:
         if isinstance(e, (WrappedDisk, cb.OneCoreDisk)):
             return "face0"
         if isinstance(e, cb.Oval):
-            return "other"
+            return "oval"
         if isinstance(e, DiskBase):
             return "firstpt"
         if type(e) in (cb.MappedSketch, Annulus):
             return "sketchavg"
         if isinstance(e, SplineRound) and _defining_class(e, "center") == "SplineRound" and _defining_class(e, "parts") == "Sketch":
             return "facept3"
+        if isinstance(e, SplineRound) and _defining_class(e, "center") == "QuarterSplineRing" and _defining_class(e, "parts") == "QuarterSplineRing":
+            return "ringc"
         return "other"
     if isinstance(e, EighthSphere):
         return "sphere"
@@ -1436,7 +1438,7 @@ class C09(core.Check):
         "equivariance of every transcribed centre rule (all entity kinds but EdgeData's constant centre) under the "
         "entity schema, which is regenerated from the source's `parts` / `center` definitions; copy independence; "
         "equivariance of the Origin/Angle arc constructions with square roots as witnesses. Spline interpolation, "
-        "closest-parameter search of OnCurve edges, float rounding, shear on whole trees (points / arrays are modelled), and the centres of Oval / spline rings / "
+        "closest-parameter search of OnCurve edges, float rounding, and the centres of "
         "interpolated curves (observed values) are checked by the oracle only"
     )
 
@@ -1764,8 +1766,16 @@ class C09(core.Check):
     def requests(self, case: dict, impl: Any) -> List[str]:
         if case["kind"] == "shear":
             npts = 4 if case["fn"] == "Face" else len(case["pts"])
-            return [f"c09.shear {enc_v(FV(case['n']))} {enc_v(FV(case['o']))} {enc_v(FV(case['d']))} {core.rat(impl['sn'])} "
-                    f"{core.rat(impl['sd'])} {core.rat(Fr(case['cot']))} " + " ".join(enc_v(FV(p)) for p in case["pts"][:npts])]
+            head = (f"{enc_v(FV(case['n']))} {enc_v(FV(case['o']))} {enc_v(FV(case['d']))} {core.rat(impl['sn'])} "
+                    f"{core.rat(impl['sd'])} {core.rat(Fr(case['cot']))} ")
+            cells = " ".join(enc_v(FV(p)) for p in case["pts"][:npts])
+            reqs = ["c09.shear " + head + cells]
+            if case["fn"] == "Face":
+                # the same through the entity recursion of the model (`shearE`): the face as a part tree — four corner
+                # cells and four straight edges without parts
+                tree = "P0 P1 P2 P3 " + " ".join(["N:edge:0/1:0"] * 4) + " N:face:0/1:8"
+                reqs.append(f"c09.shearent {head}4 {cells} {tree}")
+            return reqs
         if case["kind"] == "prim":
             s = case["step"]
             return [f"c09.prim {enc_step(s, None)} " + " ".join(enc_v(FV(p)) for p in case["pts"])]
@@ -1835,6 +1845,15 @@ class C09(core.Check):
                 scale = 1.0 + max(abs(c) for c in r_)
                 if not all(_close(a, b, scale) for a, b in zip(m, r_)):
                     return f"{case['fn']}.shear cot={case['cot']}: model {[float(x) for x in m]}, implementation {r_}"
+            if len(model) > 1:
+                ptoks = [t for t in model[1].split() if t.startswith("P") and "=" in t]
+                if not model[1].startswith("ok") or len(ptoks) != len(impl["res"]) or not model[1].rstrip().endswith("N:face:0/1:8"):
+                    return f"Face.shear through the part tree: model answers {model[1][:100]}"
+                for t, r_ in zip(ptoks, impl["res"]):
+                    m = [core.parse_rat(x) for x in t.split("=")[1].split(",")]
+                    scale = 1.0 + max(abs(c) for c in r_)
+                    if not all(_close(a, b, scale) for a, b in zip(m, r_)):
+                        return f"Face.shear (entity recursion) cot={case['cot']}: model {[float(x) for x in m]}, implementation {r_}"
             return None
         if case["kind"] == "prim":
             toks = ans.split()
